@@ -295,8 +295,9 @@ func arithExcluded(c Case, ns []refnum.Num, e expect, s shape) string {
 		}
 	}
 	switch {
-	case anyRatio && anyBigInt && in(c.Op, "+", "-", "*", "/", "floor", "ceiling", "truncate", "round", "incf", "decf") && h.ExclOn("ratio-bignum-longfloat"):
-		// NormalizeNumber turns (ratio, bignum) into long-floats
+	case anyRatio && anyBigInt && in(c.Op, "+", "-", "*", "/", "floor", "ceiling", "truncate", "round", "mod", "rem", "incf", "decf") && h.ExclOn("ratio-bignum-longfloat"):
+		// NormalizeNumber turns (ratio, bignum) into long-floats (mod and rem: these were covered by
+		// mod-rem-ratio-float while C05-F8 was open)
 		return "ratio-bignum-longfloat"
 	case in(c.Op, "floor", "mod") && s.allFix && len(ns) == 2 && ns[1].R.Sign() < 0 && h.ExclOn("floor-neg-divisor"):
 		return "floor-neg-divisor"
